@@ -2259,6 +2259,7 @@ where
             #[cfg(delaunay_verif)]
             {
                 crate::verif::tick::tick("bulk.shuffle_attempt");
+                crate::verif::tick::iter("bulk.shuffle_attempt", attempt, attempts.get());
                 crate::verif::probe::hit("bulk_shuffle_retry");
             }
             let mut shuffled = vertices.to_vec();
@@ -2428,6 +2429,7 @@ where
             #[cfg(delaunay_verif)]
             {
                 crate::verif::tick::tick("bulk.shuffle_attempt");
+                crate::verif::tick::iter("bulk.shuffle_attempt", attempt, attempts.get());
                 crate::verif::probe::hit("bulk_shuffle_retry");
             }
             let mut shuffled = vertices.to_vec();
@@ -4118,6 +4120,11 @@ where
                 #[cfg(delaunay_verif)]
                 {
                     crate::verif::tick::tick("rebuild.attempt");
+                    crate::verif::tick::iter(
+                        "rebuild.attempt",
+                        attempt + 1,
+                        HEURISTIC_REBUILD_ATTEMPTS,
+                    );
                     crate::verif::probe::hit("heuristic_rebuild_attempt");
                     if crate::verif::fail::hit("dt.rebuild.attempt") {
                         return Err(DelaunayRepairError::HeuristicRebuildFailed {
